@@ -8,6 +8,7 @@
 //!  * `history`  : multi-column schema x every composition of n <= 5 rows into write() calls x every
 //!                 subset of flush() positions x empty-write insertions x reader batch sizes x configs
 //!  * `long`     : structured long columns (lengths around 8 / 128 / 1024 ...) x content patterns
+//!  * `nestlong` : long child runs (63..1025 slots, null densities 0..all) below list / map / struct parents
 //!  * `parallel` : low-level ArrowColumnWriter path, all interleavings of per-column op sequences on
 //!                 one thread and on one OS thread per column under the baton scheduler
 use crate::cfg::*;
@@ -1133,6 +1134,148 @@ pub fn run(ctx: &Ctx) -> ! {
                 st.outcome(&format!("long|enc={}|rg={}", o.encodings, o.row_groups.len().min(6)));
                 if idx == total - 1 {
                     st.sample("long", || json!({"type": t.name, "len": lens[li], "pattern": format!("{:?}", pats[pi]), "cfg": case.cfg.describe()}));
+                }
+            }
+        }));
+    }
+
+    // ---------------- nested long families: long child runs below list / map / struct parents
+    if want("nestlong") {
+        use DataType::*;
+        // (container kind, leaf): kinds 0 List, 1 LargeList, 2 ListView, 3 FixedSizeList<_,1>, 4 Map, 5 Struct with null rows, 6 List<Struct>
+        let leaves = [Int32, Utf8];
+        let kinds: Vec<usize> = (0..7).collect();
+        let runs: Vec<usize> = if quick { vec![63, 64, 65, 127, 128, 129, 1024] } else { vec![31, 32, 33, 63, 64, 65, 66, 127, 128, 129, 255, 256, 257, 1023, 1024, 1025] };
+        // null density of the long run: 0, 1/3, 1/2, 2/3, all
+        let dens = 5usize;
+        // placement: 0 periodic (alternating), 1 runs (nulls first, then values), 2 xorshift stream threshold
+        let places = 3usize;
+        // prefix: 0 one short row directly before the long row; 1 short row + empty row; 2 short row + null row;
+        // 3 short, empty, short, null (the long row always starts a new child run except for prefix 0)
+        let prefixes = 4usize;
+        let ndims = all_dims();
+        let mut ncfg_small = exactly(0, &ndims);
+        ncfg_small.extend(exactly(1, &ndims));
+        let ncfg_big: Vec<Cfg> = vec![Cfg::default(), Cfg::default().with(D_VERSION, 1), Cfg::default().with(D_DICT, 1), Cfg::default().with(D_LAYOUT, 1), Cfg::default().with(D_LAYOUT, 2), Cfg::default().with(D_READER_BS, 3), Cfg::default().with(D_PAGE_SIZE, 2), Cfg::default().with(D_CDC, 2), Cfg::default().with(D_DICT_LIMIT, 2), Cfg::default().with(D_WBS, 3)];
+        let mk_ty = |kind: usize, leaf: &DataType| -> Ty {
+            let dt = match kind {
+                0 => list(leaf.clone(), true),
+                1 => large_list(leaf.clone(), true),
+                2 => list_view(leaf.clone(), true),
+                3 => fsl(leaf.clone(), true, 1),
+                4 => map(leaf.clone(), true),
+                5 => strukt(vec![("a", leaf.clone(), true)]),
+                _ => list(strukt(vec![("a", leaf.clone(), true), ("b", Int32, true)]), true),
+            };
+            Ty { name: format!("{dt}"), family: format!("nestlong:{}", ["List", "LargeList", "ListView", "FixedSizeList", "Map", "Struct", "List<Struct>"][kind]), dt, nullable: true, core: true }
+        };
+        let stream = lfsr_bytes(4096, LFSR_A);
+        let build_rows = |kind: usize, leaf: &DataType, run: usize, den: usize, place: usize, prefix: usize| -> Vec<Val> {
+            // slot i of the long run: null or a value that is distinct per position
+            let is_null = |i: usize| -> bool {
+                match (den, place) {
+                    (0, _) => false,
+                    (4, _) => true,
+                    (1, 0) => i % 3 == 1,
+                    (2, 0) => i % 2 == 1,
+                    (3, 0) => i % 3 != 0,
+                    (1, 1) => i < run / 3,
+                    (2, 1) => i < run / 2,
+                    (3, 1) => i < 2 * run / 3,
+                    (1, _) => stream[i % 4096] % 3 == 0,
+                    (2, _) => stream[i % 4096] % 2 == 0,
+                    (_, _) => stream[i % 4096] % 3 != 0,
+                }
+            };
+            let leafv = |k: u64| nth_val(leaf, k);
+            let slot = |i: usize| if is_null(i) { Val::Null } else { leafv(100 + i as u64) };
+            // element of a container row for one leaf slot value
+            let elem = |kind: usize, v: Val, k: u64| -> Val {
+                match kind {
+                    4 => Val::Struct(vec![Val::Str(format!("k{k}")), v]),
+                    6 => Val::Struct(vec![v, Val::I(k as i128)]),
+                    _ => v,
+                }
+            };
+            let mut rows: Vec<Val> = vec![];
+            if kind == 3 || kind == 5 {
+                // one leaf slot per row: a run is a sequence of consecutive valid rows
+                let row = |v: Val| if kind == 3 { Val::List(vec![v]) } else { Val::Struct(vec![v]) };
+                let short = [leafv(1), Val::Null, leafv(2)];
+                for v in short.iter().take(1 + prefix % 3) {
+                    rows.push(row(v.clone()));
+                }
+                if prefix > 0 {
+                    rows.push(Val::Null);
+                }
+                for i in 0..run {
+                    rows.push(row(slot(i)));
+                }
+                rows.push(Val::Null);
+                rows.push(row(leafv(3)));
+            } else {
+                let short1 = Val::List(vec![elem(kind, leafv(1), 1), elem(kind, Val::Null, 2), elem(kind, leafv(2), 3)]);
+                let short2 = Val::List(vec![elem(kind, leafv(3), 4)]);
+                rows.push(short1);
+                match prefix {
+                    1 => rows.push(Val::List(vec![])),
+                    2 => rows.push(Val::Null),
+                    3 => {
+                        rows.push(Val::List(vec![]));
+                        rows.push(short2.clone());
+                        rows.push(Val::Null);
+                    }
+                    _ => {}
+                }
+                rows.push(Val::List((0..run).map(|i| elem(kind, slot(i), 10 + i as u64)).collect()));
+                rows.push(short2);
+            }
+            rows
+        };
+        let mut items: Vec<(usize, usize, usize, usize, usize, usize)> = vec![];
+        for &kind in &kinds {
+            for li in 0..leaves.len() {
+                for ri in 0..runs.len() {
+                    for den in 0..dens {
+                        for place in 0..places {
+                            if (den == 0 || den == 4) && place > 0 {
+                                continue;
+                            }
+                            for prefix in 0..prefixes {
+                                items.push((kind * 2 + li, ri, den, place, prefix, 0));
+                            }
+                        }
+                    }
+                }
+            }
+        }
+        let mut starts = vec![];
+        let mut total = 0u64;
+        for it in &items {
+            starts.push(total);
+            total += if runs[it.1] >= 1000 { ncfg_big.len() } else { ncfg_small.len() } as u64;
+        }
+        st.extra.insert("nestlong_bounds".into(), json!({"containers": ["List", "LargeList", "ListView", "FixedSizeList<_,1>", "Map<Utf8,_>", "Struct with null rows", "List<Struct>"], "leaves": ["Int32", "Utf8"],
+            "child_run_lengths": runs, "null_densities": ["0", "1/3", "1/2", "2/3", "all"], "placements": ["periodic", "nulls first", "xorshift stream"], "prefixes": 4,
+            "configs_run<1000": ncfg_small.len(), "configs_run>=1000": ncfg_big.len(), "shapes": items.len()}));
+        st.merge(par_for(ctx, "nestlong", total, 16, |idx, st| {
+            let ii = match starts.binary_search(&idx) {
+                Ok(i) => i,
+                Err(i) => i - 1,
+            };
+            let (kl, ri, den, place, prefix, _) = items[ii];
+            let (kind, li) = (kl / 2, kl % 2);
+            let ki = (idx - starts[ii]) as usize;
+            let cfg = if runs[ri] >= 1000 { &ncfg_big[ki] } else { &ncfg_small[ki] };
+            let t = mk_ty(kind, &leaves[li]);
+            let rows = build_rows(kind, &leaves[li], runs[ri], den, place, prefix);
+            let n = rows.len();
+            let case = Case { sub: "nestlong".into(), tys: vec![t], cols: vec![rows], cfg: cfg.clone(), hist: vec![Op::Write(n)], schedule: None, threads: false };
+            st.add("nestlong", 1, 1);
+            if let Some(o) = eval(&case, (5 << 40) + idx, st) {
+                st.outcome(&format!("nestlong|enc={}|rg={}", o.encodings, o.row_groups.len().min(6)));
+                if idx == total - 1 {
+                    st.sample("nestlong", || json!({"type": case.tys[0].name, "run": runs[ri], "density": den, "placement": place, "prefix": prefix, "cfg": case.cfg.describe(), "rows": n}));
                 }
             }
         }));
